@@ -8,6 +8,40 @@ use desert::{
 use std::cell::RefCell;
 use std::rc::{Rc, Weak};
 
+/// a user codec built on the compressed-block primitives: `id ++ compressed(payload) ++ tail`
+#[derive(Debug, PartialEq, Eq, Clone)]
+pub struct Zipped {
+    pub id: u8,
+    pub payload: Vec<u8>,
+    pub tail: u16,
+}
+
+impl BinarySerializer for Zipped {
+    fn serialize<O: BinaryOutput>(&self, ctx: &mut SerializationContext<O>) -> Result<()> {
+        ctx.write_u8(self.id);
+        ctx.write_compressed(&self.payload, Default::default())?;
+        ctx.write_u16(self.tail);
+        Ok(())
+    }
+}
+
+impl BinaryDeserializer for Zipped {
+    fn deserialize(ctx: &mut DeserializationContext<'_>) -> Result<Self> {
+        let id = ctx.read_u8()?;
+        let payload = ctx.read_compressed()?;
+        let tail = ctx.read_u16()?;
+        Ok(Zipped { id, payload, tail })
+    }
+}
+
+pub fn zipped_encode(z: &Zipped) -> Out<Vec<u8>> {
+    guarded(|| desert::serialize_to_byte_vec(z)).0
+}
+
+pub fn zipped_decode(b: &[u8]) -> Out<Zipped> {
+    guarded(|| desert::deserialize::<Zipped>(b)).0
+}
+
 /// a flat stream of string writes: (deduplicated?, string)
 pub struct FlatScript(pub Vec<(bool, String)>);
 
